@@ -1,2 +1,111 @@
-(* C04 -- placeholder *)
-From MsiModel Require Import Base Package.
+(* C04 -- Rejected operations change nothing.
+   On every state satisfying the package invariant: a rejected INSERT / UPDATE / DELETE returns a package whose
+   container and pool are IDENTICAL (only the finisher is armed), same observation, invariant kept, and a save writes
+   what it would have written before; create_table that answers Err leaves container and pool identical -- there is
+   no half-created table (the proof shows that once the argument checks and the three catalog pre-validations pass, none
+   of the three catalog inserts can fail); drop_table that answers Err returns the package itself; rejected stream calls
+   return the package itself; every argument check of create_table / drop_table precedes the first change.
+   Statements only; every proof is `exact <lemma>` from theories/. *)
+From Coq Require Import Sorting.Sorted Permutation.
+From MsiModel Require Import Base Sexp Value Expr Category Column CodePage Pool Table Container StreamName Propset Summary Query Package PoolProofs TableProofs QueryProofs DbInv CatalogProofs PropsetCodecProofs PackageProofs PkgInv UpdateRefine PkgInv2 InsertRefine DeleteRefine DmlPkgProofs DropTableProofs MiscOpsProofs ReopenProofs CreateTableLemmas CreateTableProofs StreamProofs Reach KnownFindings.
+From MsiGen Require Import GenConsts GenCatalog GenStreamName.
+Open Scope N_scope.
+
+Theorem C04_dml :
+  forall (prof : profile) (k : pkg),
+         PInv2 prof k ->
+         (forall (tn : str) (rows : list (list value)) (k' : pkg),
+          pkg_insert prof k tn rows = (k', Err) ->
+          PInv2 prof k' /\ same_obs prof k k' /\ k_cont k' = k_cont k /\ k_pool k' = k_pool k) /\
+         (forall (tn : str) (cond : option ast) (k' : pkg),
+          pkg_delete prof k tn cond = (k', Err) ->
+          PInv2 prof k' /\ same_obs prof k k' /\ k_cont k' = k_cont k /\ k_pool k' = k_pool k) /\
+         (forall (tn : str) (ups : list (str * value)) (cond : option ast) (k' : pkg),
+          pkg_update prof k tn ups cond = (k', Err) ->
+          PInv2 prof k' /\ same_obs prof k k' /\ k_cont k' = k_cont k /\ k_pool k' = k_pool k).
+Proof. exact pkg_dml_err. Qed.
+
+(* what a save writes is unchanged by a rejected call *)
+Theorem C04_dml_saved :
+  forall (prof : profile) (k : pkg),
+         flags_ok k ->
+         (forall (t : str) (rows : list (list value)) (k' : pkg),
+          pkg_insert prof k t rows = (k', Err) -> same_state k k' /\ saved k' = saved k) /\
+         (forall (t : str) (cond : option ast) (k' : pkg),
+          pkg_delete prof k t cond = (k', Err) -> same_state k k' /\ saved k' = saved k) /\
+         (forall (t : str) (ups : list (str * value)) (cond : option ast) (k' : pkg),
+          pkg_update prof k t ups cond = (k', Err) -> same_state k k' /\ saved k' = saved k).
+Proof. exact dml_err_noop. Qed.
+
+(* no half-created table *)
+Theorem C04_create_table :
+  forall (prof : profile) (k : pkg) (tn : str) (cols : list column) (k' : pkg),
+         PInv3 prof k ->
+         pkg_create_table prof k tn cols = (k', Err) ->
+         PInv3 prof k' /\ same_obs prof k k' /\ k_pool k' = k_pool k /\ k_cont k' = k_cont k.
+Proof. exact create_table_err3. Qed.
+
+Theorem C04_create_table_args :
+  forall (prof : profile) (k : pkg) (tn : str) (cols : list column),
+         is_valid_tname tn = false \/
+         existsb (str_eqb tn) CREATE_TABLE_EXTRA_RESERVED = true \/
+         cols = [] \/
+         MAX_NUM_TABLE_COLUMNS < nlen cols \/
+         existsb c_pk cols = false \/ first_dup_or_bad cols [] = false \/ find_table (k_tabs k) tn <> None ->
+         pkg_create_table prof k tn cols = (k, Err).
+Proof. exact create_table_arg_errors. Qed.
+
+(* Err => the package itself *)
+Theorem C04_drop_table :
+  forall (prof : profile) (k : pkg) (tn : str),
+         PInv2 prof k ->
+         pkg_drop_table prof k tn = (k, Err) /\
+         (is_reserved tn = true \/ is_valid_tname tn = false \/ find_table (k_tabs k) tn = None) \/
+         (exists k' : pkg, pkg_drop_table prof k tn = (k', Ok tt)).
+Proof. exact drop_table_cases. Qed.
+
+Theorem C04_drop_table_args :
+  forall (prof : profile) (k : pkg) (tn : str),
+         is_reserved tn = true \/ is_valid_tname tn = false \/ find_table (k_tabs k) tn = None ->
+         pkg_drop_table prof k tn = (k, Err).
+Proof. exact drop_table_arg_errors. Qed.
+
+Theorem C04_streams :
+  forall (k : pkg) (n : str) (b : bytes) (k1 k2 : pkg),
+         (pkg_write_stream k n b = (k1, Err) -> k1 = k) /\ (pkg_remove_stream k n = (k2, Err) -> k2 = k).
+Proof. exact stream_err_noop. Qed.
+
+Theorem C04_insert_unknown_table :
+  forall (prof : profile) (c : container) (p : pool) (ts : tables) (tn : str) (rows : list (list value)),
+         find_table ts tn = None -> exec_insert prof c p ts tn rows = Err.
+Proof. exact exec_insert_err_unknown. Qed.
+
+Theorem C04_insert_arity :
+  forall (prof : profile) (c : container) (p : pool) (ts : tables) (tn : str) (t : table)
+           (rows : list (list value)) (r : list value),
+         find_table ts tn = Some t ->
+         In r rows ->
+         length r <> length (t_cols t) ->
+         exec_insert prof c p ts tn rows <> Panic /\ is_ok (exec_insert prof c p ts tn rows) = false.
+Proof. exact exec_insert_err_arity. Qed.
+
+(* a rejected select: selects return no package at all, they cannot change it *)
+Theorem C04_select_unknown_column :
+  forall (prof : profile) (c : container) (p : pool) (ts : tables) (tn : str) (names : list str)
+           (cond : option ast) (t : table),
+         find_table ts tn = Some t ->
+         (exists n : str, In n names /\ has_col t n = false) ->
+         exec_select prof c p ts (Sel (JTable tn) names cond) <> Panic /\
+         is_ok (exec_select prof c p ts (Sel (JTable tn) names cond)) = false.
+Proof. exact select_unknown_column. Qed.
+
+Print Assumptions C04_dml.
+Print Assumptions C04_dml_saved.
+Print Assumptions C04_create_table.
+Print Assumptions C04_create_table_args.
+Print Assumptions C04_drop_table.
+Print Assumptions C04_drop_table_args.
+Print Assumptions C04_streams.
+Print Assumptions C04_insert_unknown_table.
+Print Assumptions C04_insert_arity.
+Print Assumptions C04_select_unknown_column.
